@@ -68,6 +68,7 @@ type c06Scenario struct {
 	Crc       bool     `json:"crc,omitempty"`     // Channel.VerifyCrc (disk readers verify sealed segments / snapshot files when opening them)
 	Corrupt   string   `json:"corrupt,omitempty"` // "" | log | snap: one byte of the cached log segment / snapshot file was altered on disk before the start
 	Prep      bool     `json:"prep,omitempty"`    // the source prepares a snapshot for 4 s (LF heartbeats) before +FULLRESYNC and before $<len>
+	Burst     string   `json:"burst,omitempty"`    // the master takes 2 writes during every snapshot; payload + those commands arrive as one write ("one") or split "inpay" | "atend" | "incmd"
 	Events    []string `json:"events,omitempty"`
 }
 
@@ -257,6 +258,9 @@ func (e *c06Env) prepare() error {
 	e.src.DataDelay = 200*time.Millisecond + 500*time.Microsecond
 	if scn.Prep {
 		e.src.PrepDelay = 2500 * time.Millisecond
+	}
+	if scn.Burst != "" {
+		e.src.SnapWrites, e.src.Burst = 2, scn.Burst
 	}
 	if scn.Src == "fo" {
 		e.src.SetLineage(h1.ReplID, cur.Off(scn.ForkAt)+1)
@@ -1488,6 +1492,34 @@ func c06Histories(tier string) []c06Scenario {
 			fams = append(fams, c06Family{c06Prep(tr), [][]string{nil}})
 		case thorough && tr.CacheID == "":
 			fams = append(fams, c06Family{c06Prep(tr), plain})
+		}
+	}
+	// the master takes writes while the snapshot is on its way: they sit in the socket
+	// right behind the payload (one write), or the connection's writes are cut inside the
+	// payload / exactly behind it / inside the first stream command
+	for _, tr := range triples {
+		if tr.LogSize != 1<<20 {
+			continue
+		}
+		isSeed := c06Seed(tr)
+		v := tr
+		v.Burst = "one"
+		switch {
+		case isSeed:
+			fams = append(fams, c06Family{v, plain})
+		default:
+			fams = append(fams, c06Family{v, [][]string{nil}})
+		}
+		if isSeed || (tr.CpID == "" && tr.CacheID == "") || thorough {
+			for _, b := range []string{"inpay", "atend", "incmd"} {
+				w := tr
+				w.Burst = b
+				if isSeed && thorough {
+					fams = append(fams, c06Family{w, plain})
+				} else {
+					fams = append(fams, c06Family{w, [][]string{nil}})
+				}
+			}
 		}
 	}
 	// the source is replaced by a master with a brand-new id and overlapping offsets, and
